@@ -30,14 +30,43 @@ the reference unit model mc/models/unitsref.py):
   file sharing its file-level default units, each group in {default,
   explicit, non-dimensional} x temperatures {default, explicit} x T_ref line
   {written, omitted when 298.15 K}; each group must load as it does alone.
+
+Fourth-wave families (both tiers; alphabets in mc/domains/w4_c12.py):
+
+* spelling of explicit '<number><separator><unit>' strings: separator in {no
+  blank (the bundled data write `100K`), one blank, two blanks} x number in
+  {positional, integral values without '.0'} - the 5 spellings not used
+  elsewhere - x every unit of the unit-space family (63) and every prefixed
+  unit whose prefixed name directly follows the number (20 prefixes on J,
+  cal, K), all four kinds explicit, on the 2-record core (thorough: 8);
+* file layouts: the group's data in the loaded library.yaml itself, in an
+  included file, in an included file of a sub-directory, behind a chain of
+  two includes, in an included file beside own data of the includer (under
+  OTHER default units), in the second / first of two included files, in the
+  includer beside an include.  Valid presentations (4-record core x 3 value
+  modes x 2 temperature modes) must load like alone, the other group of the
+  library as well; and the missing-unit clause: 3 records x the kind whose
+  default unit is missing x {default, explicit, non-dimensional}
+  presentation of the other kinds, in all 8 layouts, each with a control (the
+  same files with the unit in place must load);
+* load histories, each in a process that has loaded no file containing a
+  unit string before (forked copies of a fresh interpreter), over the letters
+  {no prefix, 20 SI prefixes} at each of the positions J, mol, K: for
+  every first letter, a file written with it and then files with all 21
+  letters (every ordered pair (a, b) has a history in which a is the first
+  unit ever loaded and b is loaded for the first time after it); and one
+  walk of 442 files in which every ordered pair, twice the same included,
+  occurs as two consecutive files.  Every file must load as it does alone.
 """
 import itertools
 import os
+import shutil
 import tempfile
 
 from ..runner import Result
 from ..domains import estimates as E
 from ..domains import w3_c12 as W
+from ..domains import w4_c12 as X
 
 TWO_HASH_SEEDS = ('quick', 'thorough')   # tiers in which the space is walked under a second PYTHONHASHSEED
 LEVEL = 'exploration'
@@ -65,11 +94,22 @@ BOUND = {'quick': '96 records x 54 mode combinations (3 modes for each of H, S, 
                   'about 1e-23..1e29 in exponent notation); magnitudes: 3 records with '
                   'tiny/huge values x 54 mode combinations; two groups in one file: '
                   'all 16 ordered pairs of a 4-record core x 9 mode pairs x all '
-                  'temperature/T_ref-line presentations of each group'
-                  % len(W.energy_exprs()),
+                  'temperature/T_ref-line presentations of each group; '
+                  'spelling: 5 new (separator, number style) spellings of explicit '
+                  'strings x (%d unit-space units + 20 prefixes x {J, cal, K}) x 2 '
+                  'records; layouts: 7 include layouts x 4 records x 3 value modes x 2 '
+                  'temperature modes, and the missing-unit clause in 8 layouts x 3 '
+                  'records x 4 kinds x 3 presentations of the other kinds (each with a '
+                  'loading control); load histories in forked copies of a fresh '
+                  'interpreter, letters {no prefix, 20 SI prefixes} x 3 prefix '
+                  'positions (J, mol, K): 21 histories "first letter, then all 21 letters" and one '
+                  'walk of 442 files with every ordered pair of letters as neighbours'
+                  % (len(W.energy_exprs()), len(W.energy_exprs())),
          'thorough': 'additionally the full product of modes and units for a '
                      '6-record core (every zero/non-zero combination); the unit-space '
-                     'and prefix families on that core as well (8 records)'}
+                     'and prefix families on that core as well (8 records), and the '
+                     'spelling family on those 8 records; layouts and load histories '
+                     'as in quick'}
 RULE = ('every presentation of every record is loaded; its reference values, '
         'table, range and reference temperature are compared with the record '
         'converted by the harness\'s own unit factors (1e-9; 1e-6 where eV per '
@@ -81,7 +121,11 @@ RULE = ('every presentation of every record is loaded; its reference values, '
         'involved); with a prefixed kelvin the getters are compared at T_ref '
         'and the table temperatures, not at the ends of the range.  In a file '
         'with two groups each group is judged exactly like the same record '
-        'alone in a file')
+        'alone in a file; so is a record written in another spelling of its '
+        'explicit strings, in another file layout (there also the other group '
+        'of the library), or loaded after another file in the same process.  '
+        'A missing-unit file must make Load raise in every layout (its control '
+        'with the unit in place must load)')
 ASSUMPTIONS = ['the gas constant used for non-dimensionalisation is the '
                'library\'s own (pgradd.Consts), required to lie within 1e-5 of '
                '8.31446 J/mol/K',
@@ -95,7 +139,19 @@ ASSUMPTIONS = ['the gas constant used for non-dimensionalisation is the '
                'written without exponent (the documented unit grammar has none)',
                'whether a temperature that is exactly an end of the valid range '
                'is inside it after conversion from a prefixed kelvin is decided '
-               'by the last bit of the conversion: not judged']
+               'by the last bit of the conversion: not judged',
+               'blanks between the number and the unit of an explicit string are '
+               'optional and may be repeated (documented grammar: juxtaposition; '
+               'the bundled data write `100K`); an integral number may be written '
+               'without a decimal point',
+               'each file of a library carries its own units block: whether the '
+               'default units of an including file are "available" to a bare '
+               'number in an included file is not judged (no such case is '
+               'enumerated)',
+               'the starting state of a load history is a fresh interpreter that '
+               'has imported pgradd and loaded one library file without any unit '
+               'text (non-dimensional keys only); os.fork() copies that state '
+               'faithfully']
 MANIFEST = dict(
     technique='exhaustive enumeration of records x unit presentations loaded '
               'from generated files, differential against the non-dimensional '
@@ -110,7 +166,13 @@ MANIFEST = dict(
          'names (W h, L atm, lbf ft, ...), all 20 SI prefixes on energy, '
          'amount and kelvin (bare numbers down to about 1e-23 and up to 1e29), '
          'records of tiny and huge magnitude, and files holding two groups '
-         'with different reference temperatures and presentations.',
+         'with different reference temperatures and presentations; explicit '
+         'strings written without / with two blanks between number and unit '
+         'and with integral numbers (for every unit of the unit space and '
+         'every prefix); the data placed in included files (7 layouts), '
+         'the missing-unit clause in each of them; and every ordered pair '
+         'of prefixed units loaded one after the other in a process that '
+         'has loaded nothing with units before.',
     note='Values come from a small alphabet including zero and negative '
          'numbers; mixed units inside one Cp table are exercised through '
          'per-point explicit units.',
@@ -214,15 +276,21 @@ def tfact(u):
     return _FACT['T', u]
 
 
-def body(rec, mH, mS, mC, mT, uH, uS, uC, uT, R0, units, omit_tref=False):
+def body(rec, mH, mS, mC, mT, uH, uS, uC, uT, R0, units, omit_tref=False, spell=None):
     """Lines of one thermochem block; file-level defaults it relies on are
-    entered into `units`."""
+    entered into `units`.  spell = (separator, number style) of the explicit
+    '<number><separator><unit>' strings (default: one blank, positional)."""
+    sep, style = spell or X.OLD_SPELLING
+
+    def expl(v, u):
+        return '%s%s%s' % (X.spell_number(v, style), sep, u)
+
     def temp(T):
         v = T / tfact(uT)
         if mT == 'default':
             units['temperature'] = uT
             return bare(v)
-        return '%s %s' % (inunit(v), uT)
+        return expl(v, uT)
     lines = []
     if not omit_tref:
         lines.append('      T_ref: %s' % temp(rec['tref']))
@@ -236,7 +304,7 @@ def body(rec, mH, mS, mC, mT, uH, uS, uC, uT, R0, units, omit_tref=False):
             units['molar enthalpy'] = uH
             lines.append('      H_ref: %s' % bare(v))
         else:
-            lines.append('      H_ref: %s %s' % (inunit(v), uH))
+            lines.append('      H_ref: %s' % expl(v, uH))
     if mS == 'nd':
         lines.append('      ND_S_ref: %s' % bare(Sj / R0))
     else:
@@ -245,7 +313,7 @@ def body(rec, mH, mS, mC, mT, uH, uS, uC, uT, R0, units, omit_tref=False):
             units['molar entropy'] = uS
             lines.append('      S_ref: %s' % bare(v))
         else:
-            lines.append('      S_ref: %s %s' % (inunit(v), uS))
+            lines.append('      S_ref: %s' % expl(v, uS))
     if rec['table']:
         lines.append('      %s:' % ('ND_Cp_data' if mC == 'nd' else 'Cp_data'))
         for k, (T, cp) in enumerate(rec['table']):
@@ -260,7 +328,7 @@ def body(rec, mH, mS, mC, mT, uH, uS, uC, uT, R0, units, omit_tref=False):
                 # the rotating alphabet are used for every point)
                 u = (S_UNITS[(S_UNITS.index(uC) + k) % len(S_UNITS)]
                      if uC in S_UNITS else uC)
-                lines.append('        - [%s, %s %s]' % (temp(T), inunit(cj / sfact(u)), u))
+                lines.append('        - [%s, %s]' % (temp(T), expl(cj / sfact(u), u)))
     if rec['range']:
         lines.append('      range: [%s, %s]' % (temp(rec['range'][0]), temp(rec['range'][1])))
     return lines
@@ -277,13 +345,13 @@ def head(units):
 
 
 def render(rec, mH, mS, mC, mT, uH, uS, uC, uT, R0, drop_default=None,
-           omit_tref=False):
+           omit_tref=False, spell=None, group=GROUP):
     """-> YAML text.  m* in MODES (mT in default/explicit)."""
     units = {}
-    lines = body(rec, mH, mS, mC, mT, uH, uS, uC, uT, R0, units, omit_tref)
+    lines = body(rec, mH, mS, mC, mT, uH, uS, uC, uT, R0, units, omit_tref, spell)
     if drop_default:
         units.pop(drop_default, None)
-    return '\n'.join(head(units) + ["  '%s':" % GROUP, '    thermochem:'] + lines) + '\n'
+    return '\n'.join(head(units) + ["  '%s':" % group, '    thermochem:'] + lines) + '\n'
 
 
 def render_two(recs, press, omits, R0):
@@ -309,6 +377,44 @@ def load_text(text):
         with open(os.path.join(d, 'library.yaml'), 'w') as f:
             f.write(text)
         return GroupLibrary.Load(os.path.join(d, 'library.yaml'))
+
+
+# ---- fourth wave: files in a scratch tree of this process (several files
+# per library; also avoids one mkdtemp in the shared /tmp per case)
+
+_SCRATCH = [None, 0]
+
+
+def scratch():
+    if _SCRATCH[0] is None or not os.path.isdir(_SCRATCH[0]):
+        _SCRATCH[0] = tempfile.mkdtemp(prefix='pgv_c12w4_')
+    return _SCRATCH[0]
+
+
+def drop_scratch():
+    if _SCRATCH[0] is not None:
+        shutil.rmtree(_SCRATCH[0], ignore_errors=True)
+        _SCRATCH[0] = None
+
+
+def load_files(files, root=None):
+    """files: {relative path: content}; loads its 'library.yaml'."""
+    import pgradd.ThermoChem    # noqa
+    from pgradd.GroupAdd.Library import GroupLibrary
+    _SCRATCH[1] += 1
+    d = os.path.join(root or scratch(), 'c%d_%d' % (os.getpid(), _SCRATCH[1]))
+    os.mkdir(d)
+    try:
+        with open(os.path.join(d, 'scheme.yaml'), 'w') as f:
+            f.write(SCHEME)
+        for rel, content in files.items():
+            path = os.path.join(d, rel)
+            os.makedirs(os.path.dirname(path), exist_ok=True)
+            with open(path, 'w') as f:
+                f.write(content)
+        return GroupLibrary.Load(os.path.join(d, 'library.yaml'))
+    finally:
+        shutil.rmtree(d, ignore_errors=True)
 
 
 def plain(v):
@@ -393,15 +499,17 @@ def judge(k, rec, pres, R0, base_obs, interior=False):
     return probs
 
 
-def check(R, rec, pres, R0, base_obs, wit, fam='presentation', interior=False):
+def check(R, rec, pres, R0, base_obs, wit, fam='presentation', interior=False,
+          spell=None):
     mH, mS, mC, mT, uH, uS, uC, uT = pres
-    text = render(rec, mH, mS, mC, mT, uH, uS, uC, uT, R0)
+    text = render(rec, mH, mS, mC, mT, uH, uS, uC, uT, R0,
+                  spell=tuple(spell) if spell else None)
     R.evals += 1
     if (mH, mS, mC) != ('nd', 'nd', 'nd') or rec['H'] == 0 or rec['S'] == 0:
         R.nontrivial += 1
     new = fam != 'presentation'
     try:
-        lib = load_text(text)
+        lib = load_text(text) if fam != 'spelling' else load_files({'library.yaml': text})
         k = lib[GROUP]['thermochem']
     except Exception as e:      # noqa
         R.outcomes[(fam + ':' if new else '') + 'load-failed:' + type(e).__name__] += 1
@@ -414,7 +522,9 @@ def check(R, rec, pres, R0, base_obs, wit, fam='presentation', interior=False):
     R.outcomes[(fam + ':' if new else '') + ('same' if not probs else 'differs')] += 1
     if probs:
         R.violation('%s:%s:%s' % (fam, probs[0].split(' ')[0], zero_tag(rec)),
-                    '%r presented as %r: %s' % (short(rec), pres, probs[0])
+                    '%r presented as %r%s: %s' % (
+                        short(rec), pres, ' spelled %r' % (tuple(spell),) if spell else '',
+                        probs[0])
                     + ('\n' + text if new else ''), wit)
     elif (mH, mS, mC) == ('default', 'explicit', 'nd'):
         R.sample(dict(record=short(rec), presentation=list(pres), file=text), limit=1)
@@ -512,7 +622,8 @@ def run_case(R, w, R0=None, base_obs=None):
     if R0 is None:
         R0 = gas_constant()
         base_obs = base_of(rec, R0, w['interior'])
-    check(R, rec, tuple(w['pres']), R0, base_obs, w, fam=w['fam'], interior=w['interior'])
+    check(R, rec, tuple(w['pres']), R0, base_obs, w, fam=w['fam'], interior=w['interior'],
+          spell=w.get('spell'))
 
 
 # ---- two groups in one file
@@ -662,6 +773,276 @@ def run_missing(R):
                 R.outcomes['missing-unit:rejected(%s)' % type(e).__name__] += 1
 
 
+# ---- fourth wave: spelling of explicit '<number><separator><unit>' strings
+
+def presentations_spelling():
+    """(presentation, interior): every unit of the unit-space family and
+    every prefixed unit of the positions where the prefixed name follows the
+    number, all four kinds explicit - so every number of the file stands
+    directly against the first name of its unit."""
+    for Ex in W.energy_exprs():
+        yield ('explicit',) * 4 + W.triple(Ex) + ('K',), False
+    for pos in X.SPELL_PREFIX_POSITIONS:
+        for p in W.PREFIXES:
+            yield ('explicit',) * 4 + W.prefix_units(pos, p), pos == 'K'
+
+
+def run_spelling(R, idx, si):
+    """One record through every unit in ONE new spelling."""
+    rec = records()[idx]
+    R0 = gas_constant()
+    base = {False: base_of(rec, R0, False), True: base_of(rec, R0, True)}
+    for pres, interior in presentations_spelling():
+        run_case(R, dict(kind='case', fam='spelling', pool='records', record=idx,
+                         pres=list(pres), interior=interior,
+                         spell=list(X.NEW_SPELLINGS[si])), R0, base[interior])
+
+
+# ---- fourth wave: where the data sit relative to the loaded library.yaml
+
+MISSING_KINDS = ('molar enthalpy', 'molar entropy', 'molar heat capacity', 'temperature')
+MISSING_RECORDS = (29, 77, 62)      # zero H / zero S / no zero, with a range
+
+
+def other_file(n, R0):
+    """A complete valid file for GROUP2 whose default units all differ from
+    the kcal / cal / K and from the n-th rotation used beside it."""
+    rs = records()
+    rec = rs[gcore()[n % 4]]
+    pres = ('default',) * 4 + (H_UNITS[(n + 1) % len(H_UNITS)], S_UNITS[(n + 1) % 4],
+                               S_UNITS[(n // 2 + 1) % 4], T_UNITS[(n + 1) % 3])
+    return rec, pres, render(rec, *pres, R0, group=GROUP2)
+
+
+def layout_cases(layout):
+    """Valid presentations in one layout: 4-record core x value modes moving
+    together x temperature mode; units rotate."""
+    if layout == 'self':
+        return
+    n = 0
+    for ia in gcore():
+        for m in MODES:
+            for mT in ('default', 'explicit'):
+                n += 1
+                yield dict(kind='layout', layout=layout, record=ia, n=n,
+                           pres=[m, m, m, mT, H_UNITS[n % len(H_UNITS)], S_UNITS[n % 4],
+                                 S_UNITS[(n // 2) % 4], T_UNITS[n % 3]])
+
+
+def base_cached(idx, R0):
+    if idx not in _BASE:
+        _BASE[idx] = base_of(records()[idx], R0)
+    return _BASE[idx]
+
+
+def run_layout_case(R, w):
+    R0 = gas_constant()
+    rec = records()[w['record']]
+    pres = tuple(w['pres'])
+    rec2, pres2, other = other_file(w['n'], R0)
+    files = X.lay_out(w['layout'], render(rec, *pres, R0), other)
+    where = 'included-file' if w['layout'] in X.IN_INCLUDED_FILE else 'own-file'
+    two = X.has_other(w['layout'])
+    shown = '\n'.join('--- %s\n%s' % (p, files[p]) for p in sorted(files))
+    R.evals += 1
+    R.nontrivial += 1
+    try:
+        lib = load_files(files)
+        ks = [lib[GROUP]['thermochem']] + ([lib[GROUP2]['thermochem']] if two else [])
+    except Exception as e:      # noqa
+        R.outcomes['layout:load-failed:' + type(e).__name__] += 1
+        R.violation('layout:load-failed:%s:%s' % (type(e).__name__, where),
+                    '%r presented as %r in layout %r could not be loaded: %s\n%s'
+                    % (short(rec), pres, w['layout'], e, shown), w)
+        return
+    bad = None
+    for g, (k, r_, p_) in enumerate(zip(ks, (rec, rec2), (pres, pres2))):
+        probs = judge(k, r_, p_, R0, base_cached(records().index(r_), R0))
+        if probs and bad is None:
+            bad = (g, probs[0])
+    R.outcomes['layout:%s' % ('same' if bad is None else 'differs')] += 1
+    if bad is not None:
+        g, p = bad
+        R.violation('layout:%s:%s%s' % (p.split(' ')[0], where,
+                                        ':the-other-group' if g else ''),
+                    '%r presented as %r in layout %r: %s: %s\n%s' % (
+                        short(rec), pres, w['layout'],
+                        'the other group of the library' if g else 'the group', p, shown), w)
+    elif pres[0] == 'default' and two:
+        R.sample(dict(family='layout', layout=w['layout'], files=files), limit=1)
+
+
+def missing_cases(layout):
+    """The missing-unit clause in one layout: 3 records x the kind whose
+    default is missing x how the OTHER kinds are presented (moving together).
+    ('self', all default) is run_missing()."""
+    for idx in MISSING_RECORDS:
+        for kind in MISSING_KINDS:
+            if kind == 'molar heat capacity' and not records()[idx]['table']:
+                continue
+            for m in MODES:
+                if layout == 'self' and m == 'default':
+                    continue
+                yield dict(kind='missing-layout', layout=layout, record=idx, what=kind,
+                           others=m)
+
+
+def run_missing_layout_case(R, w):
+    R0 = gas_constant()
+    rec = records()[w['record']]
+    kind, m = w['what'], w['others']
+    mH, mS, mC = [('default' if kind == k_ else m) for k_ in MISSING_KINDS[:3]]
+    mT = 'default' if kind == 'temperature' or m == 'default' else 'explicit'
+    pres = (mH, mS, mC, mT, 'kcal/mol', 'cal/(mol*K)', 'cal/(mol*K)', 'K')
+    _, _, other = other_file(0, R0)
+    where = 'included-file' if w['layout'] in X.IN_INCLUDED_FILE else 'own-file'
+    R.evals += 1
+    R.nontrivial += 1
+    # control: with the default unit in place the very same files load
+    control = X.lay_out(w['layout'], render(rec, *pres, R0), other)
+    try:
+        load_files(control)[GROUP]['thermochem']
+    except Exception as e:      # noqa
+        R.outcomes['missing-unit:control-not-loaded'] += 1
+        R.violation('missing-unit-control-load-failed:%s:%s' % (where, type(e).__name__),
+                    'the control of a missing-unit case (default unit for the %s '
+                    'present, layout %r) could not be loaded: %s\n%s'
+                    % (kind, w['layout'], e, control), w)
+        return
+    files = X.lay_out(w['layout'], render(rec, *pres, R0, drop_default=kind), other)
+    try:
+        lib = load_files(files)
+    except Exception as e:      # noqa
+        R.outcomes['missing-unit:%s:rejected(%s)' % (where, type(e).__name__)] += 1
+        return
+    R.outcomes['missing-unit:%s:accepted' % where] += 1
+    R.violation('missing-unit-accepted:%s:%s' % (where, kind),
+                'no unit is available for the %s values of the group (the other kinds '
+                'presented as %r; layout %r) but the library was loaded, with groups '
+                '%r:\n%s' % (kind, m, w['layout'], sorted(str(g) for g in lib),
+                             '\n'.join('--- %s\n%s' % (p, files[p]) for p in sorted(files))),
+                w)
+
+
+def run_layout(R, layout):
+    for w in layout_cases(layout):
+        run_layout_case(R, w)
+    for w in missing_cases(layout):
+        run_missing_layout_case(R, w)
+
+
+# ---- fourth wave: what was loaded EARLIER in the same process
+
+def hrec():
+    return find(H=-10.2, S=30.41, cp='one', range=(250.0, 1500.0), tref=298.15)
+
+
+def histories(pos):
+    """Load histories at one prefix position over the 21 letters {no prefix,
+    20 SI prefixes}; a step is (prefix, mode), modes alternate along the
+    history.
+    * first-ever: for every first letter, that file and then all 21 letters
+      in ascending order of the prefix (22 files): every ordered pair (a, b)
+      has a history in which a is the first unit ever loaded and b is loaded
+      for the first time after it;
+    * neighbours: one closed walk of 442 files in which every ordered pair
+      (a, b), a == b included, occurs once as two consecutive files."""
+    modes = ('default', 'explicit')
+    ps = X.HISTORY_PREFIXES
+    for i1, p1 in enumerate(ps):
+        seq = [p1] + list(ps)
+        yield dict(kind='history', pos=pos, shape='first-ever',
+                   steps=[[p, modes[(i1 + k) % 2]] for k, p in enumerate(seq)])
+    walk = X.euler_circuit(len(ps))
+    yield dict(kind='history', pos=pos, shape='neighbours',
+               steps=[[ps[v], modes[(k // 2) % 2]] for k, v in enumerate(walk)])
+
+
+def history_init():
+    """What the pristine interpreter does before it is forked: the imports,
+    and (so that not every fork pays the first-use costs of the YAML reader,
+    the scheme reader and the correlation classes) one load and evaluation of
+    a library file that contains NO unit text at all: non-dimensional keys
+    only, no T_ref line, no table, no range."""
+    import pgradd.ThermoChem    # noqa
+    from pgradd.GroupAdd.Library import GroupLibrary    # noqa
+    rec = records()[find(H=1.5, S=30.41, cp='none', range=None, tref=298.15)]
+    text = render(rec, 'nd', 'nd', 'nd', 'explicit', 'J/mol', 'J/mol/K', 'J/mol/K', 'K',
+                  8.314, omit_tref=True)
+    assert ' K' not in text and 'units' not in text, text
+    observe(load_files({'library.yaml': text})[GROUP]['thermochem'], rec)
+    drop_scratch()
+
+
+def history_child(item):
+    """Runs in a forked copy of the pristine interpreter: load and judge the
+    files of one history in order, up to the first that is not as it is
+    alone.  -> [dict(probs=[...]) | dict(error=, etype=), ...], texts of the
+    last two files."""
+    rec = records()[hrec()]
+    interior = item['pos'] == 'K'
+    out, texts = [], []
+    for p, m in item['steps']:
+        pres = tuple([m] * 4 + list(W.prefix_units(item['pos'], p)))
+        text = render(rec, *pres, item['R0'])
+        texts = texts[-1:] + [text]
+        try:
+            k = load_files({'library.yaml': text}, root=item['root'])[GROUP]['thermochem']
+        except Exception as e:      # noqa
+            out.append(dict(error='%s: %s' % (type(e).__name__, e), etype=type(e).__name__))
+            break
+        probs = judge(k, rec, pres, item['R0'], item['base'], interior)
+        out.append(dict(probs=probs[:2]))
+        if probs:
+            break
+    return dict(steps=out, texts=texts)
+
+
+def run_histories(R, hs):
+    R0 = gas_constant()
+    root = scratch()
+    rec = records()[hrec()]
+    base = {i: [list(o) for o in base_of(rec, R0, i)] for i in (False, True)}
+    res = X.pristine_map('mc.props.c12', 'history_init', 'history_child',
+                         [dict(h, R0=R0, root=root, base=base[h['pos'] == 'K']) for h in hs])
+    for h, r in zip(hs, res):
+        if 'crash' in r:
+            R.evals += 1
+            R.nontrivial += 1
+            R.outcomes['history:crash'] += 1
+            R.violation('history:crash', 'a load history (%s, position %s) ended with an '
+                        'unexpected exception: %s' % (h['shape'], h['pos'], r['crash']), h)
+            continue
+        steps = r['ok']['steps']
+        R.evals += len(steps)
+        R.nontrivial += len(steps)
+        last = steps[-1]
+        bad = ('load-failed:' + last['etype'], 'could not be loaded: ' + last['error']) \
+            if 'error' in last else \
+            (last['probs'][0].split(' ')[0], last['probs'][0]) if last['probs'] else None
+        R.outcomes['history:same'] += len(steps) - (1 if bad else 0)
+        if bad is None:
+            if h['shape'] == 'first-ever' and h['steps'][0][0] == 'k':
+                R.sample(dict(family='load history in a pristine process', position=h['pos'],
+                              steps=h['steps'], last_two_files=r['ok']['texts']), limit=1)
+            continue
+        R.outcomes['history:%s' % (bad[0] if 'error' in last else 'differs')] += 1
+        g = len(steps) - 1
+        w = dict(h, steps=h['steps'][:g + 1])
+        R.violation('history:%s:%s-file' % (bad[0], 'first' if g == 0 else 'later'),
+                    'in a process that has loaded no file with a unit string before, %r '
+                    'is loaded %d times in a row, written with these (prefix at position '
+                    '%s, mode) in turn: %r.  The last file, which loads correctly when it '
+                    'is the only one (prefix family), %s\n%s' % (
+                        short(rec), g + 1, h['pos'], w['steps'], bad[1],
+                        '\n'.join('--- file %d\n%s' % (g + 1 - len(r['ok']['texts']) + 1 + i, x)
+                                  for i, x in enumerate(r['ok']['texts']))), w)
+
+
+def run_history(R, pos):
+    run_histories(R, list(histories(pos)))
+
+
 CORE = None
 
 
@@ -690,10 +1071,25 @@ def shards(tier, seed):
         out.append(('mag', i))
     for a in range(len(gcore())):
         out.append(('multi', a))
+    for i in fam_recs:
+        for si in range(len(X.NEW_SPELLINGS)):
+            out.append(('spelling', i, si))
+    for layout in ('self',) + X.LAYOUTS:
+        out.append(('layout', layout))
+    # each starts an interpreter of its own: spread, not at the ends of the list
+    for n, pos in enumerate(X.HISTORY_POSITIONS):
+        out.insert(30 + 25 * n, ('history', pos))
     return out
 
 
 def run_shard(shard, tier):
+    try:
+        return _run_shard(shard, tier)
+    finally:
+        drop_scratch()
+
+
+def _run_shard(shard, tier):
     R = Result()
     if shard[0] == 'rec':
         run_record(R, shard[1], tier)
@@ -708,6 +1104,12 @@ def run_shard(shard, tier):
         run_family(R, 'magnitude', 'mag', shard[1])
     elif shard[0] == 'multi':
         run_multi(R, shard[1])
+    elif shard[0] == 'spelling':
+        run_spelling(R, shard[1], shard[2])
+    elif shard[0] == 'layout':
+        run_layout(R, shard[1])
+    elif shard[0] == 'history':
+        run_history(R, shard[1])
     else:
         run_missing(R)
     return R
@@ -727,5 +1129,12 @@ def replay(w):
         run_case(R, w)
     elif w['kind'] == 'multi':
         run_multi_case(R, w)
+    elif w['kind'] == 'layout':
+        run_layout_case(R, w)
+    elif w['kind'] == 'missing-layout':
+        run_missing_layout_case(R, w)
+    elif w['kind'] == 'history':
+        run_histories(R, [w])
+    drop_scratch()
     return dict(violates=bool(R.violations),
                 detail='\n'.join(v['msg'] for v in R.violations[:3]) or 'holds')
